@@ -100,6 +100,8 @@ struct World {
     in_window: bool,
     last_status: Vec<u8>,
     rx_inside: Option<usize>,
+    /// the reader is in the middle of dropping this slot's ReceivedFrame
+    dropping: Option<usize>,
     /// datagrams accepted into the frame currently being built in each slot (independent encoder)
     building: Vec<Vec<Dg>>,
     /// frame bytes each pending request is expected to transmit
@@ -173,14 +175,15 @@ impl World {
                     self.oracle.push(format!("lifecycle-order: slot {} went from status {} to {}", i, self.last_status[i], st));
                 }
                 self.last_status[i] = st;
-                let parties = self.created[i].is_some() as u8 + self.received[i].is_some() as u8
+                let reader = self.received[i].is_some() || self.dropping == Some(i);
+                let parties = self.created[i].is_some() as u8 + reader as u8
                     + self.sending[i].is_some() as u8 + (self.rx_inside == Some(i)) as u8;
                 if parties > 1 {
                     self.oracle.push(format!("two-parties: slot {} has {} parties inside its buffer (builder={}, reader={}, tx={}, rx={})", i, parties,
-                        self.created[i].is_some(), self.received[i].is_some(), self.sending[i].is_some(), self.rx_inside == Some(i)));
+                        self.created[i].is_some(), reader, self.sending[i].is_some(), self.rx_inside == Some(i)));
                 }
                 // the status must name the party
-                let expect = if self.created[i].is_some() { Some(1) } else if self.received[i].is_some() { Some(7) }
+                let expect = if self.created[i].is_some() { Some(1) } else if reader { Some(7) }
                     else if self.sending[i].is_some() { Some(3) } else if self.rx_inside == Some(i) { Some(5) } else { None };
                 if let Some(e) = expect {
                     if st != e { self.oracle.push(format!("status-party-mismatch: slot {} status {} but the party inside implies {}", i, st, e)); }
@@ -234,11 +237,11 @@ impl World {
                 self.ops.push(format!("{{\"o\":\"rxend\",\"k\":{}}}", slot));
             }
             3 if self.win_drop => {
-                self.obs.push(1);
+                // the key has been cleared, the slot not yet released
                 self.snap();
                 let k = self.plan[3];
                 self.run_inner(k, rng);
-                self.ops.push(format!("{{\"o\":\"dropclear\",\"i\":{}}}", slot));
+                self.ops.push(format!("{{\"o\":\"droprel\",\"i\":{}}}", slot));
             }
             4 if self.win_poll => {
                 let was = self.md.verif_slot(slot as usize).0;
@@ -539,15 +542,18 @@ impl World {
     fn drop_received(&mut self, i: usize, windowed: bool) {
         let r = self.received[i].take();
         if windowed {
-            self.ops.push(format!("{{\"o\":\"droprel\",\"i\":{}}}", i));
+            self.ops.push(format!("{{\"o\":\"dropclear\",\"i\":{}}}", i));
             self.win_drop = true;
+            self.dropping = Some(i);
             let res = std::panic::catch_unwind(std::panic::AssertUnwindSafe(move || drop(r)));
             self.win_drop = false;
+            self.dropping = None;
             if res.is_err() {
                 self.obs.push(-99);
                 self.oracle.push("drop-panic: ReceivedFrame::drop panicked".into());
+            } else {
+                self.obs.push(1);
             }
-            // (the dropclear op was logged at the site; its observation is empty)
             self.snap();
         } else {
             self.ops.push(format!("{{\"o\":\"dropr\",\"i\":{}}}", i));
@@ -821,6 +827,7 @@ fn new_world<const N: usize, const D: usize>(mode: &str) -> Box<World> {
         in_window: false,
         last_status: vec![0; N],
         rx_inside: None,
+        dropping: None,
         building: (0..N).map(|_| Vec::new()).collect(),
         expect: (0..N).map(|_| None).collect(),
         expect_tx: (0..N).map(|_| None).collect(),
